@@ -100,6 +100,18 @@ pub fn pool(t: Tier) -> Vec<V> {
             V::Dur(90 * NS),
             V::Type("int".into()),
             V::list(&[]),
+            V::Int(7),
+            V::UInt(0),
+            V::Dbl(-0.0),
+            V::Dbl(f64::INFINITY),
+            V::s("a b"),
+            V::s("é"),
+            V::Bytes(vec![]),
+            V::list(&[V::s("a"), V::Null]),
+            V::map(&[]),
+            V::map(&[("a", V::list(&[V::Int(1)])), ("b", V::Null)]),
+            V::Ts(0),
+            V::Dur(-1_500_000_000),
         ]);
     }
     p
